@@ -28,6 +28,14 @@ func verifBefore[T any](x T) T {
 	return x
 }
 
+// verifCall0 replaces x.Load(): the hook, then the call of the method value x.Load.
+func verifCall0[T any](f func() T) T {
+	if y := VerifYield; y != nil {
+		y()
+	}
+	return f()
+}
+
 // verifLock replaces mu.Lock(): a yield, then a yield-spin on TryLock.  A goroutine that waits
 // for the lock never blocks the baton-passing scheduler, it just burns steps.
 func verifLock(try func() bool) {
